@@ -141,6 +141,23 @@ def parentScore : Bool → Bool → List (String × String) → Int
     let hitNeg := !neg && rxNegative d && !rxPositive d
     (if hitPos then 25 else 0) + (if hitNeg then -25 else 0) + parentScore (pos || hitPos) (neg || hitNeg) ps
 
+/-- the bonus for a link text that reads as a number -/
+def numBonus (next : Bool) (text : List Char) : Int :=
+  let n := atoi text
+  if n > 0 then (if next && n == 1 then -10 else (if 10 - n < 0 then 0 else 10 - n)) else 0
+
+/-- the bonus for pointing exactly one page on (back) -/
+def diffBonus (next : Bool) (F : Facts) : Int :=
+  match pageDiff F.current.toUTF8.toList F.href.toUTF8.toList F.prefixLen with
+  | some d => if (next && d == 1) || (!next && d == -1) then 25 else 0
+  | none => 0
+
+/-- text + " " + class + " " + id -/
+def dataOf (F : Facts) : List Char := F.text.toList ++ ' ' :: F.cls.toList ++ ' ' :: F.id.toList
+
+def own (next : Bool) (s : List Char) : Bool := if next then rxNextLink s else rxPrevLink s
+def opp (next : Bool) (s : List Char) : Bool := if next then rxPrevLink s else rxNextLink s
+
 def verdict (next : Bool) (F : Facts) : Verdict :=
   if !F.absOK then .ignored "can't converted to abs url"
   else if !F.hasPrefix then .ignored "not prefix"
@@ -154,25 +171,20 @@ def verdict (next : Bool) (F : Facts) : Verdict :=
     else if rxExtraneous text then .banned
     else if next && !rxNumber F.remainder.toList then .ignored "no number beyond folder url"
     else
-      let data := text ++ ' ' :: F.cls.toList ++ ' ' :: F.id.toList
+      let data := dataOf F
       let href := F.href.toList
-      let own := fun (s : List Char) => if next then rxNextLink s else rxPrevLink s
-      let opp := fun (s : List Char) => if next then rxPrevLink s else rxNextLink s
       let s0 : Int := if F.inFolder then 0 else -25
-      let s1 := s0 + (if own data then 50 else 0)
+      let s1 := s0 + (if own next data then 50 else 0)
       let s2 := s1 + (if rxPagination data then 25 else 0)
-      let s3 := s2 + (if rxFirstLast data && !own text then -65 else 0)
+      let s3 := s2 + (if rxFirstLast data && !own next text then -65 else 0)
       let s4 := s3 + (if rxNegative data || rxExtraneous data then -50 else 0)
-      let s5 := s4 + (if opp data then -200 else 0)
+      let s5 := s4 + (if opp next data then -200 else 0)
       let s6 := s5 + parentScore false false F.parents
       let s7 := s6 + (if rxLinkPagination href || rxPagination href then 25 else 0)
       let s8 := s7 + (if rxExtraneous href then -15 else 0)
       let s9 := s8 + (if textLen > 10 then -(textLen : Int) else 0)
-      let n := atoi text
-      let s10 := s9 + (if n > 0 then (if next && n == 1 then -10 else (if 10 - n < 0 then 0 else 10 - n)) else 0)
-      let s11 := s10 + (match pageDiff F.current.toUTF8.toList F.href.toUTF8.toList F.prefixLen with
-        | some d => if (next && d == 1) || (!next && d == -1) then 25 else 0
-        | none => 0)
+      let s10 := s9 + numBonus next text
+      let s11 := s10 + diffBonus next F
       .cand s11
 
 end Distill.LinkScore
